@@ -183,6 +183,27 @@ func genProject(r *rand.Rand, o genOpts) *projSpec {
 				p.Files[filepath.Join(dir, d, "fr", "other.txt")] = "salut\n"
 			}
 		}
+		if i > 0 && r.IntN(100) < 12 {
+			// a plain source file of an earlier target (often in another package) is a source
+			// of this one too: one source label, named from two modules
+			j := r.IntN(i)
+			o := &p.Targets[j]
+			for _, s := range o.Sources {
+				full := p.sourceRel(o, s)
+				if c, ok := p.Files[full]; ok && !strings.HasPrefix(c, linkMark) && !strings.HasPrefix(s, "dir_") && !strings.Contains(s, "..") {
+					if rel, err := filepath.Rel("/"+dir, "/"+full); err == nil {
+						dup := false
+						for _, x := range t.Sources {
+							dup = dup || x == rel
+						}
+						if !dup {
+							t.Sources = append(t.Sources, rel)
+						}
+					}
+					break
+				}
+			}
+		}
 		if r.IntN(100) < 20 {
 			// sources named by a glob: adding or deleting a matching file changes the input set
 			d := "gdir_" + t.Name
